@@ -703,29 +703,12 @@ BD_Shape<T>::is_disjoint_from(const BD_Shape& y) const {
     return true;
   }
   // Two BDSs are disjoint when their intersection is empty.
-  // That is if and only if there exists at least a bounded difference
-  // such that the upper bound of the bounded difference in the first
-  // BD_Shape is strictly less than the lower bound of
-  // the corresponding bounded difference in the second BD_Shape
-  // or vice versa.
-  // For example: let be
-  // in `*this':    -a_j_i <= v_j - v_i <= a_i_j;
-  // and in `y':    -b_j_i <= v_j - v_i <= b_i_j;
-  // `*this' and `y' are disjoint if
-  // 1.) a_i_j < -b_j_i or
-  // 2.) b_i_j < -a_j_i.
-  PPL_DIRTY_TEMP(N, tmp);
-  for (dimension_type i = space_dim+1; i-- > 0; ) {
-    const DB_Row<N>& x_i = dbm[i];
-    for (dimension_type j = space_dim+1; j-- > 0; ) {
-      neg_assign_r(tmp, y.dbm[j][i], ROUND_UP);
-      if (x_i[j] < tmp) {
-        return true;
-      }
-    }
-  }
-
-  return false;
+  // Note: comparing each bound of `*this' with the opposite bound of `y'
+  // is not enough, since the intersection may be empty only because
+  // of a negative cycle alternating constraints of the two shapes.
+  BD_Shape z(*this);
+  z.intersection_assign(y);
+  return z.is_empty();
 }
 
 template <typename T>
